@@ -3,7 +3,7 @@
    annotations.  Layers are content-addressed: the digest of a layer is a function of its BYTES only, so two
    layers with identical bytes (e.g. the default Instance and the empty State, both zero bytes) share a digest. *)
 EXTENDS Naturals, Sequences, FiniteSets
-Kinds == {"instance", "parametric", "solution", "sample_set"}
+LayerKinds == {"instance", "parametric", "solution", "sample_set"}
 \* abstract reads; `bytes(l)` is the encoding of the layer's payload
 Digests(layers, bytes(_)) == { bytes(layers[i]) : i \in DOMAIN layers }
 \* reading digest d as kind k succeeds iff some layer has those bytes AND that kind, and returns such a layer's payload
